@@ -640,6 +640,10 @@ func (rn *runner) compareAll(q anyQuery, refs []shardRef) {
 	live := refs[0]
 	lh, lerr := c04lib.Search(live.sh, q.toQuery())
 	o.Stats["query-"+q.Kind]++
+	if len(lh) > 0 {
+		o.Nontrivial++ // a shard-level query with a non-empty answer, compared across all shards
+		o.Stats["query-nonempty"]++
+	}
 	if lerr != nil {
 		o.Fail("query-error:warm:"+q.Kind, fmt.Sprintf("%s query failed on the live shard: %v", q.Kind, lerr), rn.replayOf(&q, "warm"))
 		return
@@ -938,7 +942,7 @@ func main() {
 		rn.history(hd, *nb, *nq)
 		os.RemoveAll(hd)
 	}
-	o.Close(map[string]any{"rule": "distinct cache-level op lines whose answer depends on the cache / bucket state (get, mutate, foreach, count, flush); shard-level comparisons are counted in distribution.answers-compared"})
+	o.Close(map[string]any{"rule": "distinct cache-level op lines whose answer depends on the cache / bucket state (get, mutate, foreach, count, flush) + shard-level queries with a non-empty answer on the live shard (each compared with 8 other shards: distribution.answers-compared)"})
 }
 
 func doReplay(path string) {
